@@ -1029,8 +1029,54 @@ func (g *Gen) customTypeCode() uint64 {
 
 var mediaTypes = []string{"a/b", "text/plain", "application/x-sh", "image/png", "application/vnd.api+json", "x/y.z-w"}
 
+// the characters a media type may hold after its first (a letter), as the text grammar has them
+const mediaTypeTail = "abcxyzABCXYZ0189!#$%&'*+.^_`|~{}-"
+const mediaTypeHead = "abmzABMZ"
+
+// randValidMediaType: a media type drawn from the whole alphabet of the grammar (one slash, not at an end)
+func randValidMediaType(r *Rng) string {
+	part := func(first bool) string {
+		n := 1 + r.Intn(4)
+		b := make([]byte, n)
+		for i := range b {
+			if first && i == 0 {
+				b[i] = mediaTypeHead[r.Intn(len(mediaTypeHead))]
+			} else {
+				b[i] = mediaTypeTail[r.Intn(len(mediaTypeTail))]
+			}
+		}
+		return string(b)
+	}
+	return part(true) + "/" + part(false)
+}
+
+// randAnyMediaType: mostly-valid media types with characters from just outside every range the
+// grammar uses (the ASCII neighbours of letters and digits, punctuation, control and non-ASCII bytes)
+func randAnyMediaType(r *Rng) string {
+	const edge = "/09:@AZ[\\]^_`az{|}~ !\"#$%&'()*+,-.;<=>?\x7f\x00\t\n\xc3\xa9"
+	mt := []byte(randValidMediaType(r))
+	for k := 0; k < 1+r.Intn(2); k++ {
+		c := edge[r.Intn(len(edge))]
+		switch r.Intn(4) {
+		case 0:
+			mt[0] = c
+		case 1:
+			mt[r.Intn(len(mt))] = c
+		case 2:
+			i := r.Intn(len(mt) + 1)
+			mt = append(mt[:i], append([]byte{c}, mt[i:]...)...)
+		default:
+			mt[len(mt)-1] = c
+		}
+	}
+	return string(mt)
+}
+
 func (g *Gen) media() {
 	mt := mediaTypes[g.r.Intn(len(mediaTypes))]
+	if g.r.P(1, 3) {
+		mt = randValidMediaType(g.r)
+	}
 	d := g.r.Bytes(g.r.Intn(20))
 	if g.c.NoChunked || g.r.P(1, 2) {
 		g.emit(Event{K: "md", D2: []byte(mt), D: d})
